@@ -237,7 +237,7 @@ func (g *userSchemaGen) value(t reflect.Type, depth int) reflect.Value {
 			return v // all zero
 		}
 		for i := 0; i < t.NumField(); i++ {
-			if g.r.Intn(4) != 0 {
+			if g.r.Intn(4) != 0 && v.Field(i).CanSet() {
 				v.Field(i).Set(g.value(t.Field(i).Type, depth+1))
 			}
 		}
